@@ -35,3 +35,12 @@ CLAIMED["C04"] = dict(category=_MC,
     note="complete over 3 uids with single-entry batches for the abstract model; conformance on a seeded sample (quick) or all (thorough) generated transitions plus random histories. "
          "The incremental repair algorithm itself is observed only through its results.")
 NOT_APPLICABLE = {}
+ENGINES[0]["serves_properties"] = ["C01", "C02", "C04", "C08"]
+CLAIMED["C08"] = dict(category=_MC,
+    text="PolicySetSM.tla is the policy set as a state machine (statics / templates / links as three disjoint maps; add, add_template, link with exact-slot guard, unlink, "
+         "remove_static, remove_template, merge with and without renaming; failed operations leave the state unchanged) and PsBodies.tla gives a state its meaning "
+         "(a link = its template with the entity substituted for the slot). TLC explores every reachable state over 3 ids with the design invariants (ids disjoint, every "
+         "link has its template, links bind exactly the slots) and emits every (state, operation) pair; the real PolicySet replays them and random histories; TLC re-derives "
+         "each recorded step, every view (public shadow maps, core set, get_linked_policies, lookups, counts) and the authorizer's answers on a request battery.",
+    note="complete for the 3-id pool / <=3 ids bound at the design level; conformance on a seeded sample (quick) or all (thorough) of 161k generated pairs plus random histories over 4 ids. "
+         "Bodies are recognised by annotation+effect; their conditions are checked through authorization.")
